@@ -42,3 +42,16 @@ Definition run_find_stackings (rs : list res3) (order : list (nat * nat)) : val 
   VL [vbool (so_near o); vlist (fun p => match p with (i, j, t) => VL [vnat i; vnat j; VS t] end) (so_stackings o)].
 Definition run_hbond_neighbours (rs : list res3) : val := vlist (vpair vnat vnat) (hbond_neighbours rs).
 Definition run_stacking_neighbours (rs : list res3) : val := vlist (vpair vnat vnat) (stacking_neighbours rs).
+
+(* ---- 3D -> 2D mapping *)
+From RV Require Import Model.Mapping.
+Definition mkmres (chain : str) (number : Z) (icode : option str) (letter : str) (nuc conn : bool) : mres :=
+  {| m_chain := chain; m_number := number; m_icode := icode; m_letter := letter; m_nucleotide := nuc; m_connected_prev := conn |}.
+Definition mkipair (i j : option nat) (lw : str) (sa : option str) : ipair := {| p_i := i; p_j := j; p_lw := lw; p_sa := sa |}.
+Definition ventry3 (e : nat * str * nat) : val := match e with (i, c, p) => VL [vnat i; vstr c; vnat p] end.
+Definition run_mapping (gaps : bool) (rs : list mres) (ps : list ipair) : val :=
+  VL [match mapping_bpseq gaps rs ps with Ok b => vlist ventry3 b | Raise e => VE (exn_name e) end;
+      vlist (vpair vstr vstr) (strands gaps rs);
+      vlist (fun r => VL [vstr (fst r); vlist (vpair vnat vnat)
+                                              (flat_map (fun e => match e with (i, _, p) => if i <? p then [(i, p)] else [] end) (snd r))])
+            (extended_rows gaps rs ps)].
